@@ -393,12 +393,12 @@ def loopBodyOK (body : List Stmt) : Bool :=
      | some (pre, _) => ifBlock pre
      | none => false)
 
-/-- Side conditions on a top-level `for i in range(b): body` covered by the loop refinement theorem: the
-bound is tensor-valued, the body is in the `if` fragment up to a trailing `if t: break` (so no nested loop),
+/-- Side conditions on a top-level `for i in range(b): body` covered by the loop refinement theorem (the bound
+may be any expression, a literal included): the body is in the `if` fragment up to a trailing `if t: break` (so no nested loop),
 the loop variable is not assigned in the body, and liveness analysis reached its fixpoint.  (That the loop
 variable is not read after the loop need not be assumed: since 9b326d7 the converter refuses such loops.) -/
 def forOK (i : Name) (b : Expr) (body : List Stmt) (lo : VSet) : Bool :=
-  tensorRhs b && loopBodyOK body &&
+  loopBodyOK body &&
   (match assignedBlock body with
    | some d => !(d.contains i)
    | none => false) &&
@@ -430,7 +430,7 @@ def nestStmt : Stmt → VSet → Bool
   | .tuple xs (.call _ _ _ _ _), _ => nodupB xs     -- `x, y = op.Foo(…)`: a multi-output operator, distinct targets
   | .ite c t e, lo => tensorRhs c && nestBlock t lo && nestBlock e lo
   | .for_ i ok b body, lo =>
-    ok && tensorRhs b && !(lo.contains i) &&
+    ok && !(lo.contains i) &&
     (match assignedBlock body with
      | some d => !(d.contains i)
      | none => false) &&
